@@ -1,7 +1,7 @@
 (** C11 — Rewrites leave no orphans and references follow.
     Model: Model/RepoV.v (lib/src/repo.rs rebase_descendants_with_options and helpers,
     lib/src/rewrite.rs, lib/src/refs.rs, lib/src/commit_builder.rs). *)
-From Verif Require Import Base.Prelude Base.DagV Model.Merge Model.RepoV Model.C11 Proofs.C10 Proofs.C11 Proofs.C11Loop Proofs.C11View Proofs.C11Follow.
+From Verif Require Import Base.Prelude Base.DagV Model.Merge Model.RepoV Model.C11 Proofs.C10 Proofs.C11 Proofs.C11Loop Proofs.C11View Proofs.C11Follow Proofs.C11Order.
 
 (** rewritten_ids_with (new_parents is the instance that skips divergent records) never runs out
     of the stated fuel, whatever the mapping (cyclic or not): every key is expanded once. *)
@@ -135,6 +135,38 @@ Proof.
   - intros x Hx. rewrite forallb_forall in C. apply memn_In. now apply C.
 Qed.
 
+(** The DFS of order_commits_for_rebase (dag_walk::topo_order_forward with the [visited] side
+    state) returns a dependency-respecting order that covers every commit to rebase, whenever the
+    dependency relation is acyclic (there is a rank that decreases along every dependency: no
+    commit is asked to be rebased onto its own descendant). *)
+Theorem C11_order_valid : forall (s0 : state) (o : rebase_opts) (rank : nat -> nat) order,
+  let T := find_descendants_for_rebase s0 (o_imm o) in
+  (forall x y, In x T -> In y (oc_deps (s_g s0) (s_pm s0) T [] x) -> rank y < rank x) ->
+  order_commits_for_rebase (s_g s0) (s_pm s0) T = Ok order ->
+  valid_from s0 o [] order /\ forall x, In x T -> In x order.
+Proof. intros s0 o rank order T. apply order_commits_valid. Qed.
+
+(** HEADLINE for the model of rebase_descendants itself (the implementation's ordering): no
+    hypothesis on the order is left, only the acyclicity of the dependency relation. *)
+Theorem C11_no_orphans_rebase_descendants : forall (s0 : state) (o : rebase_opts) (s' : state),
+  J s0 ->
+  (forall k r t, In (k, r) (s_pm s0) -> In t (new_parent_ids r) -> In t (scope s0 (o_imm o))) ->
+  (forall name t, In (name, t) (v_bms (s_v s0)) -> Nat.odd (length t) = true) ->
+  pm_get (s_pm s0) 0 = None ->
+  (exists rank : nat -> nat, forall x y,
+     In x (find_descendants_for_rebase s0 (o_imm o)) ->
+     In y (oc_deps (s_g s0) (s_pm s0) (find_descendants_for_rebase s0 (o_imm o)) [] x) -> rank y < rank x) ->
+  rebase_descendants s0 o = Ok s' ->
+  exists s1, rebase_loop s0 o = Ok s1 /\
+    let sh := ancs (pg (s_g s')) (o_imm o ++ div_keys (s_pm s1)) in
+    forall x, covered (pg (s_g s')) (v_heads (s_v s')) x -> ~ In x sh ->
+      ~ Tainted (pg (s_g s')) (nd_keys (s_pm s1)) sh x.
+Proof.
+  intros s0 o s' J0 Dom Odd Root [rank Hr] H.
+  apply (no_orphans_model s0 o order_commits_for_rebase s' J0 Dom Odd Root); [|exact H].
+  intros order EO. exact (order_commits_valid s0 o rank Hr order EO).
+Qed.
+
 (** Identity: rebase_descendants leaves every existing commit as it is, and every commit it adds
     is either the rebased copy of a commit [x] that was to be rebased - same change id, same
     description, predecessor [x] - or a re-created working-copy commit: no predecessor, a fresh
@@ -244,6 +276,8 @@ Print Assumptions C11_no_orphans_old_refuted.
 Print Assumptions C11_order_check_spec.
 Print Assumptions C11_no_orphans.
 Print Assumptions C11_no_orphans_impl_order.
+Print Assumptions C11_order_valid.
+Print Assumptions C11_no_orphans_rebase_descendants.
 Print Assumptions C11_identity_kept.
 Print Assumptions C11_bookmarks_follow.
 Print Assumptions C11_wc_follows.
